@@ -794,6 +794,25 @@ Proof.
   cbn [make_request app]. rewrite Ha, Hh, Hb. reflexivity.
 Qed.
 
+(* a request redirected TWICE: the first data centre names n, the data centre configured for n names m, the one configured
+   for m answers.  The request is written once to each of the three, the caller gets the last one's answer, the client
+   stays there.  (Every repeat goes through the same error handling as the first attempt.) *)
+Lemma make_request_migrate_twice tbl cat dcs dc a b c req code n code' m v fuel :
+  table_ok tbl = true -> In pm_entry tbl -> in_int n = true -> in_int m = true ->
+  dc_lookup n dcs = Some b -> dc_lookup m dcs = Some c ->
+  dc a req = RError code (s_phone_migrate_ ++ dec n) ->
+  dc b req = RError code' (s_phone_migrate_ ++ dec m) ->
+  dc c req = RValue v ->
+  make_request (S (S (S fuel))) tbl cat dcs dc a req []
+  = {| c_result := CValue v; c_addr := c; c_writes := [(a, req); (b, req); (c, req)] |}.
+Proof.
+  intros Hok Hin Hn Hm Hdc Hdc' Ha Hb Hc.
+  destruct (handle_migrate tbl cat dcs code n Hok Hin Hn) as (e & _ & _ & _ & Hh).
+  destruct (handle_migrate tbl cat dcs code' m Hok Hin Hm) as (e' & _ & _ & _ & Hh').
+  rewrite Hdc in Hh. rewrite Hdc' in Hh'.
+  cbn [make_request app]. rewrite Ha, Hh. cbn [make_request app]. rewrite Hb, Hh', Hc. reflexivity.
+Qed.
+
 Lemma make_request_unconfigured tbl cat dcs dc a req code n fuel :
   table_ok tbl = true -> In pm_entry tbl -> in_int n = true ->
   dc_lookup n dcs = None ->
